@@ -4,7 +4,7 @@
 From Coq Require Import ZArith List Bool Lia.
 Import ListNotations.
 From Coq Require Import Permutation.
-From BQ Require Import rt.SchedPre gen.SchedArith rt.SchedArithThm rt.Routing rt.Sched rt.SchedAssign rt.SchedLocal rt.SchedThm rt.SchedNode.
+From BQ Require Import rt.SchedPre gen.SchedArith rt.SchedArithThm rt.Routing rt.Sched rt.SchedAssign rt.SchedLocal rt.SchedThm rt.SchedNode rt.SchedTree rt.SchedTreeThm.
 Open Scope Z_scope.
 
 (* ---- generated arithmetic ---- *)
@@ -209,6 +209,154 @@ Example C15_node_nonvacuous :
   /\ srv_waiting (mkSrv 0 5 [mkEmp 3 2 1 [(7, 2)]; mkEmp 2 0 2 []] 3 5) 0 3 (Some 7)
      = Done (mkSrv 0 5 [mkEmp 3 2 3 [(7, 2)]; mkEmp 2 0 2 []] 5 5).
 Proof.
+  split; [|reflexivity]. split; [|split; reflexivity].
+  intros e [<-|[<-|[]]]; split; simpl; try lia; intros a c H; try contradiction.
+  destruct H as [H|[]]. inversion H. lia.
+Qed.
+
+(* ---- manager topology: read receipts ACROSS LEVELS (rt/SchedTree.v, rt/SchedTreeThm.v) ----
+   A link = (boss's employee record, channel down, channel up, the employee's most_recent_read_submit).
+   LinkR needs neither unique ids nor total_workers = 1: it holds for a link to a worker and to a manager. *)
+
+(* receipt found: every receipt in flight on a link, and the employee's current one, is None or in the cache *)
+Theorem C15_link_receipt_found : forall e d u m r, LinkR e d u m -> In r (m :: receipts u) ->
+  r = None \/ exists x, r = Some x /\ In x (map fst (e_cache e)).
+Proof. exact link_found. Qed.
+
+(* every protocol step on a link keeps LinkR: boss records + sends a batch; employee reads a batch (receipt :=
+   first task); employee sends WAITING with its current receipt; boss handles WAITING (receipt found, cache
+   trimmed AT the first match); messages without receipt / cache entry come and go *)
+Theorem C15_link_preserved : forall e d u m,
+  (forall a, LinkR e d u m -> LinkR (upd_emp e a) (d ++ bmsgs a) u m)
+  /\ (forall t0 ts, LinkR e (DBatch (t0 :: ts) :: d) u m -> LinkR e d u (Some (tid t0)))
+  /\ (forall n, LinkR e d u m -> LinkR e d (u ++ [UWaiting n m]) m)
+  /\ (forall n r, LinkR e d (UWaiting n r :: u) m ->
+        exists c' cnt, get_num_of_tasks_sent_since (e_cache e) r = Ok (c', cnt) /\ forall e', e_cache e' = c' -> LinkR e' d u m)
+  /\ (forall x, entry_of x = [] -> (LinkR e (x :: d) u m -> LinkR e d u m) /\ (LinkR e d u m -> LinkR e (d ++ [x]) u m))
+  /\ (forall x, receipt_of x = [] -> (LinkR e d (x :: u) m -> LinkR e d u m) /\ (LinkR e d u m -> LinkR e d (u ++ [x]) m)).
+Proof.
+  intros e d u m. split; [intros a; exact (link_send e d u m a)|]. split; [intros t0 ts; exact (link_recv_batch e t0 ts d u m)|].
+  split; [intros n H; exact (link_up_waiting e d u m n H)|]. split; [intros n r; exact (link_waiting e d n r u m)|].
+  split; intros x E; split; [exact (link_down_pop e x d u m E)|exact (link_down_push e x d u m E)
+                            |exact (link_up_pop e x d u m E)|exact (link_up_push e x d u m E)].
+Qed.
+
+(* handle_waiting at ANY node of ANY tree (the sender may be a manager): under LinkR and the sender's guarantee
+   0 <= n <= total_workers the handler returns normally - receipt found, assertion holds -, the node stays in
+   bounds, the link invariant is kept, no other employee changes.  (Discharges the hypothesis left open in
+   C15_idle_in_bounds_node_partial.) *)
+Theorem C15_waiting_never_raises_node : forall s w e d n r u m,
+  node_ok s -> nth_error (s_emps s) w = Some e -> 0 <= n <= e_total e -> LinkR e d (UWaiting n r :: u) m ->
+  exists s' e', srv_waiting s w n r = Done s' /\ node_ok s'
+    /\ nth_error (s_emps s') w = Some e' /\ LinkR e' d u m /\ e_total e' = e_total e
+    /\ length (s_emps s') = length (s_emps s)
+    /\ (forall j, j <> w -> nth_error (s_emps s') j = nth_error (s_emps s) j)
+    /\ s_lb s' = s_lb s /\ s_step s' = s_step s /\ s_total s' = s_total s.
+Proof. exact waiting_link. Qed.
+
+(* schedule_tasks at any node keeps LinkR on every link (cache entry appended iff a batch goes on that channel) *)
+Theorem C15_schedule_keeps_links : forall s ts sh rs ds s' sends j e d u m,
+  node_ok s -> s_emps s <> [] -> length ds = length (s_emps s) ->
+  schedule_tasks s ts sh rs = Done (s', sends) -> nth_error (s_emps s) j = Some e -> nth_error ds j = Some d ->
+  LinkR e d u m ->
+  exists e' d', nth_error (s_emps s') j = Some e' /\ nth_error (push_batches sends ds) j = Some d'
+                /\ LinkR e' d' u m /\ e_total e' = e_total e.
+Proof. exact schedule_link_inv. Qed.
+
+(* Manager.handle_message(WAITING from employee j) end to end, one level of the tree: under the invariants of
+   the link below and of the link to the boss it does not raise, the manager stays in bounds, both links keep
+   LinkR, and the WAITING it sends up carries its current receipt and 0 <= n <= total_workers - exactly the
+   assumption its own boss needs *)
+Theorem C15_manager_waiting_handler : forall m j n r q sh rs e d mk eb db ub,
+  node_ok (m_node m) -> nth_error (m_ups m) j = Some (UWaiting n r :: q) ->
+  nth_error (s_emps (m_node m)) j = Some e -> 0 <= n <= e_total e ->
+  LinkR e d (UWaiting n r :: q) mk -> LinkR eb db ub (m_mrrs m) ->
+  exists m' upq e', mgr_below m j sh rs = Done (m', upq, [])
+    /\ node_ok (m_node m') /\ s_total (m_node m') = s_total (m_node m)
+    /\ nth_error (s_emps (m_node m')) j = Some e' /\ LinkR e' d q mk
+    /\ nth_error (m_ups m') j = Some q
+    /\ LinkR eb db (ub ++ upq) (m_mrrs m')
+    /\ forall n' r', In (UWaiting n' r') upq -> 0 <= n' <= s_total (m_node m).
+Proof. exact mgr_below_waiting_link. Qed.
+
+(* the manager reads a batch from its boss: most_recent_read_submit := first task, link invariant kept *)
+Theorem C15_manager_reads_batch : forall m t0 ts sh rs m' sends e q u,
+  mgr_above m (DBatch (t0 :: ts)) sh rs = Done (m', sends) ->
+  LinkR e (DBatch (t0 :: ts) :: q) u (m_mrrs m) -> LinkR e q u (m_mrrs m') /\ m_last m' = m_last m.
+Proof. exact mgr_above_link. Qed.
+
+(* system level (server, managers, workers as a transition system): the induction composing the link / node
+   theorems above over all event lists is NOT proved; the statement is kept here and is checked on every
+   event of the co-simulation by the oracle (tree_read_receipt, tree_idle_bounds, tree_handler) *)
+Definition C15_tree_receipt_found_full : Prop := forall nws evs st i e u m r,
+  nws <> [] -> Forall (fun n => (0 < n)%nat) nws -> trun (tinit nws) evs = Done st ->
+  nth_error (s_emps (t_srv st)) i = Some e -> nth_error (t_ms st) i = Some u -> nth_error (t_mgrs st) i = Some m ->
+  In r (m_mrrs m :: receipts u) -> r = None \/ exists x, r = Some x /\ In x (map fst (e_cache e)).
+
+(* exactness across levels (the boss's belief about a manager equals ground truth at quiescence, cancel-free)
+   is FALSE for the code as it is *)
+Definition C15_tree_quiescent_exact_full : Prop := forall nws evs st,
+  nws <> [] -> Forall (fun n => (0 < n)%nat) nws -> forallb (fun ev => negb (is_cancel_tevent ev)) evs = true ->
+  trun (tinit nws) evs = Done st -> tquiescent st = true ->
+  s_num_idle (t_srv st) = s_total (t_srv st)
+  /\ forall e, In e (s_emps (t_srv st)) -> e_num_idle e = e_total e /\ e_num_tasks e = 0.
+
+(* D15: the idle half fails (8 events, one manager with one worker: server believes 0 of 1 idle for ever) *)
+Theorem C15_tree_idle_refuted_witness : exists st, trun (tinit [1%nat]) d15_witness = Done st /\ tquiescent st = true
+  /\ forallb (fun ev => negb (is_cancel_tevent ev)) d15_witness = true
+  /\ s_num_idle (t_srv st) = 0 /\ s_total (t_srv st) = 1
+  /\ exists m, t_mgrs st = [m] /\ s_num_idle (m_node m) = 1.
+Proof. exact tree_idle_refuted. Qed.
+
+(* D14: the num_tasks half fails independently (idle counts exact, every manager exact about its workers,
+   server's num_tasks for the manager = 1 for ever) *)
+Theorem C15_tree_num_tasks_refuted_witness : exists st, trun (tinit [3%nat]) d14_witness = Done st /\ tquiescent st = true
+  /\ forallb (fun ev => negb (is_cancel_tevent ev)) d14_witness = true
+  /\ s_num_idle (t_srv st) = 3
+  /\ map e_num_tasks (s_emps (t_srv st)) = [1]
+  /\ forall m, In m (t_mgrs st) -> forall e, In e (s_emps (m_node m)) -> e_num_tasks e = 0 /\ e_num_idle e = 1.
+Proof. exact tree_num_tasks_refuted. Qed.
+
+Theorem C15_tree_quiescent_refuted : ~ C15_tree_quiescent_exact_full.
+Proof.
+  intros H. destruct tree_idle_refuted as (st & E & Hq & Hc & Hi & Ht & _).
+  destruct (H [1%nat] d15_witness st ltac:(discriminate) ltac:(repeat constructor) Hc E Hq) as [H0 _]. rewrite Hi, Ht in H0. discriminate.
+Qed.
+
+(* non-vacuity: a link on which a WAITING (receipt 7) crosses the batch starting with task 9; and a cancel-free
+   run of the tree [2; 1] (two tasks to manager 0, whose WAITINGs reach the server) ending quiescent AND exact *)
+Definition ex_tree_run : list tevent :=
+  [TTop (EClientSubmit [mkTask 0 (-1) []; mkTask 10 (-1) []] [0%nat; 0%nat; 1%nat] [1; 0]);
+   TMgrAbove 0 [0%nat; 1%nat] [0; 1];
+   TWorker 0 (EWorkerRecv 0 false);
+   TWorker 0 (EWorkerRecv 1 false);
+   TWorker 0 (EWorkerFinish 1 10);
+   TWorker 0 (EWorkerIdle 1);
+   TMgrBelow 0 1 [] [0; 3];
+   TWorker 1 (EWorkerIdle 0);
+   TWorker 0 (EWorkerFinish 0 0);
+   TWorker 0 (EWorkerIdle 0);
+   TTop (EServerRecv 0 [1%nat] [3; 0]);
+   TMgrBelow 0 1 [] [2; 1];
+   TTop (EServerRecv 0 [1%nat] [0; 3]);
+   TMgrBelow 1 0 [0%nat] [1];
+   TMgrBelow 0 0 [1%nat] [0; 3];
+   TMgrBelow 0 0 [1%nat] [3; 3];
+   TTop (EServerRecv 0 [0%nat; 1%nat] [0; 2]);
+   TTop (EServerRecv 0 [1%nat; 0%nat] [0; 1])].
+
+Example C15_tree_nonvacuous :
+  LinkR (mkEmp 2 3 0 [(7, 2); (9, 1)]) [DBatch [mkTask 9 (-1) []]] [UWaiting 1 (Some 7)] (Some 7)
+  /\ (exists st, trun (tinit [2%nat; 1%nat]) ex_tree_run = Done st /\ tquiescent st = true
+        /\ s_num_idle (t_srv st) = 3 /\ map e_num_tasks (s_emps (t_srv st)) = [0; 0]
+        /\ map e_num_idle (s_emps (t_srv st)) = [2; 1]
+        /\ map fst (t_wlog st) = [0%nat; 0%nat])
+  /\ node_ok (mkSrv 0 1 [mkEmp 1 1 0 [(7, 1)]; mkEmp 1 0 1 []] 1 2)
+  /\ srv_waiting (mkSrv 0 1 [mkEmp 1 1 0 [(7, 1)]; mkEmp 1 0 1 []] 1 2) 0 1 (Some 7)
+     = Done (mkSrv 0 1 [mkEmp 1 1 1 [(7, 1)]; mkEmp 1 0 1 []] 2 2).
+Proof.
+  split; [exists [7]; split; [reflexivity|]; simpl; exists [], []; split; [reflexivity|]; exists [], []; auto|].
+  split; [eexists; split; [vm_compute; reflexivity|]; repeat split|].
   split; [|reflexivity]. split; [|split; reflexivity].
   intros e [<-|[<-|[]]]; split; simpl; try lia; intros a c H; try contradiction.
   destruct H as [H|[]]. inversion H. lia.
